@@ -340,6 +340,7 @@ package goose
 //@   may_reject
 //@   ensures [a statement is returned: every unsupported target is rejected] result.Expr != nil
 //@   ensures [assignment targets are variables, elements, pointees or fields] typeis(lhs, *ast.Ident) || typeis(lhs, *ast.IndexExpr) || typeis(lhs, *ast.StarExpr) || typeis(lhs, *ast.SelectorExpr)
+//@   ensures [stores through * only through pointers] typeis(lhs, *ast.StarExpr) ==> typeis(tyof(ctx, lhs.(*ast.StarExpr).X), *types.Pointer) || typeis(utype(tyof(ctx, lhs.(*ast.StarExpr).X)), *types.Pointer)
 //@   ensures [element update only of slices and maps] typeis(lhs, *ast.IndexExpr) ==> typeis(tyof(ctx, lhs.(*ast.IndexExpr).X), *types.Slice) || typeis(tyof(ctx, lhs.(*ast.IndexExpr).X), *types.Map)
 //@ func (Ctx).funcDecl (ctx, d)
 //@   may_reject
